@@ -510,4 +510,54 @@ example :
             "#SBATCH --error=\"run_sim.err\"\n#SBATCH --comment \"d\"\n\nsrun -n 2 -N 1 a; $(LAUNCHER) b\n").toList,
           restart := none } := by decide +kernel
 
+/-! ## Flux: never fails for understood walltimes -/
+
+/-- the walltime spellings the Flux adapter understands: absent is not one of them (the step
+dictionary always carries the key), an integer number of minutes, a string of digits, `"inf"` or
+the empty string (no limit), or colon-separated integers -/
+def FluxWalltimeOk (v : Val) : Prop := ∃ wt, fluxWalltime v = .ok wt
+
+/-- **Flux script generation never fails for a step without bracketed launcher tokens whose
+walltime is one of the understood spellings**: the launcher is total, the header fails only through
+the walltime conversion -/
+theorem C15_flux_never_fails (cx : Ctx) (ha : cx.adapter = .flux) (name desc : Str) (run : Dict)
+    (hw : FluxWalltimeOk (run.getN "walltime"))
+    (h1 : findAllocs ((run.getN "cmd").pyStr.length + 1) (run.getN "cmd").pyStr = [])
+    (h2 : findAllocs ((run.getN "restart").pyStr.length + 1) (run.getN "restart").pyStr = []) :
+    ∃ sc, script cx name desc run = .ok sc := by
+  obtain ⟨wt, hwt⟩ := hw
+  cases hsc : script cx name desc run with
+  | ok sc => exact ⟨sc, rfl⟩
+  | error e =>
+    exfalso
+    unfold script at hsc
+    simp only [ha] at hsc
+    have hcmd : ∃ scr, schedulerCommand cx run = .ok scr := by
+      unfold schedulerCommand
+      simp only
+      obtain ⟨o1, ho1⟩ := C15_no_tokens_never_fails cx (Or.inr ha) _ run h1
+      obtain ⟨o2, ho2⟩ := C15_no_tokens_never_fails cx (Or.inr ha) _ run h2
+      split
+      · simp only [ho1]
+        split
+        · simp only [ho2]; exact ⟨_, rfl⟩
+        · exact ⟨_, rfl⟩
+      · exact ⟨_, rfl⟩
+    obtain ⟨⟨s, c, r⟩, hs⟩ := hcmd
+    simp only [hs] at hsc
+    unfold fluxHeader fluxHeaderLines at hsc
+    simp only [hwt, Except.map] at hsc
+    cases hsc
+
+/-- the understood walltime spellings, concretely -/
+theorem C15_flux_walltime_spellings (n : Int) (s : Str) :
+    FluxWalltimeOk (.int n) ∧ FluxWalltimeOk (.str "inf".toList) ∧ FluxWalltimeOk (.str []) ∧
+    (s ≠ [] → s.all isDigit = true → FluxWalltimeOk (.str s)) := by
+  refine ⟨⟨_, rfl⟩, ⟨"0".toList, by decide⟩, ⟨"0".toList, by decide⟩, ?_⟩
+  intro hne hd
+  refine ⟨natStr (digitsVal s * 60), ?_⟩
+  simp only [fluxWalltime]
+  have : s.isEmpty = false := by cases s <;> simp_all
+  simp [this, hd]
+
 end MaestroVerif.C15
